@@ -210,6 +210,7 @@ func (h *hist) twin(opt exh.Options) *c05x.ETwin {
 	x := h.build(true, nil)
 	bo := describe(x.b)
 	tw.B = &bo
+	tw.A0 = dump(n)
 	r := n.ProcessValidated(x.b, false)
 	tw.ErrA, tw.FhBPost = append(tw.ErrA, exh.ErrClass(r)), fh(n)
 	if !r.OK() {
@@ -223,17 +224,20 @@ func (h *hist) twin(opt exh.Options) *c05x.ETwin {
 	b2 := describe(y.b)
 	tw.B2 = &b2
 	tw.ErrA = append(tw.ErrA, exh.ErrClass(n.ProcessValidated(y.b, false)))
-	tw.A, tw.TipA, tw.VotesA = dump(n), tipObs(n), votes(n)
+	tw.A, tw.TipA, tw.VotesA, tw.FhB2A = dump(n), tipObs(n), votes(n), fh(n)
 	t, err := exh.New(opt)
 	c05x.Must(err)
 	for len(t.Vals) < len(n.Vals) { // same identities in the same order (MakeValidator(i) is deterministic in i)
 		t.AddValidator()
 	}
-	for _, e := range append(c, y) {
+	for _, e := range c {
 		t.ABI.S = e.s
 		tw.ErrT = append(tw.ErrT, exh.ErrClass(t.ProcessValidated(e.b, false)))
 	}
-	tw.T, tw.TipT, tw.VotesT = dump(t), tipObs(t), votes(t)
+	tw.T0 = dump(t)
+	t.ABI.S = y.s
+	tw.ErrT = append(tw.ErrT, exh.ErrClass(t.ProcessValidated(y.b, false)))
+	tw.T, tw.TipT, tw.VotesT, tw.FhB2T = dump(t), tipObs(t), votes(t), fh(t)
 	// diagnostic: do the RAW stored diff records differ between A and the twin where the canonical ones agree?
 	diagTwins++
 	ra, rt := c05x.Dump(n.DB), c05x.Dump(t.DB)
@@ -278,7 +282,7 @@ func runHist(seed, idx uint64, gt uint32) *c05x.EHist {
 	n, err := exh.New(opt)
 	c05x.Must(err)
 	h := &hist{r: r, n: n, txSeed: (idx + 1) * 100000}
-	afterDelete, warm := false, 0
+	afterDelete, raised, warm := false, false, 0
 	if r.Intn(5) < 2 { // 40% of the histories start with 4..7 plain applies (ordinary recorded steps) so that finality moves
 		warm = 4 + r.Intn(4)
 	}
@@ -292,10 +296,16 @@ func runHist(seed, idx uint64, gt uint32) *c05x.EHist {
 				continue
 			}
 		}
-		if i >= 0 && r.Intn(100) < 40 && tip.Header.Height > 0 && int64(tip.Header.Height) > f {
+		// a block that itself raised finality (and pruned diffs/events) is preferably deleted right away and replaced by a sibling
+		wantDelete := r.Intn(100) < 40
+		if raised {
+			wantDelete = r.Intn(100) < 80
+		}
+		if i >= 0 && wantDelete && tip.Header.Height > 0 && int64(tip.Header.Height) > f {
 			d := h.del(tip, r.Bool(), false)
 			rec.Steps = append(rec.Steps, d)
 			afterDelete = d.Err == "ok" && h.lastDel != nil && c05x.Hex(h.lastDel.b.Header.ID) == d.ID
+			raised = false
 			continue
 		}
 		var x blk
@@ -308,8 +318,9 @@ func runHist(seed, idx uint64, gt uint32) *c05x.EHist {
 		default:
 			x = h.build(true, nil)
 		}
-		rec.Steps = append(rec.Steps, h.apply(x, removeTemp, reapply))
-		afterDelete = false
+		ea := h.apply(x, removeTemp, reapply)
+		rec.Steps = append(rec.Steps, ea)
+		afterDelete, raised = false, ea.Err == "ok" && ea.FhPost > ea.FhPre
 	}
 	rec.Twin = h.twin(opt)
 	rec.Restart = restart(n)
